@@ -110,8 +110,8 @@ The association STATE word is additionally written outside `a.lock` only as `clo
 from `Close`/`writeLoop`): an atomic store of the terminal value. -/
 theorem C20_steps_atomic :
     Gen.entryPointsLocked.all rowOk = true ∧
-    (Gen.entryPointsLocked.filter fun r => r.2.1 == "handler").length = 15 ∧
-    (Gen.entryPointsLocked.filter fun r => r.2.1 == "timer").length = 5 ∧
+    15 ≤ (Gen.entryPointsLocked.filter fun r => r.2.1 == "handler").length ∧
+    5 ≤ (Gen.entryPointsLocked.filter fun r => r.2.1 == "timer").length ∧
     (Gen.stateWriteSites.all fun s => s.2.2.contains "Association.lock" || s.2.1 == "Association.setState(closed)") = true := by
   decide
 
@@ -125,7 +125,7 @@ while a timer mutex is held (they are sinks of the lock graph; in particular not
 not a timer mutex again). `start/stop/close` hold the mutex for their whole body and return without it
 (`C20_lock_discipline`), so no observer path can call them on the calling timer while that timer's mutex is held. -/
 theorem C20_no_reentrant_timer :
-    (Gen.observerSites.all fun s => s.2.2 == []) = true ∧ Gen.observerSites.length = 3 ∧
+    (Gen.observerSites.all fun s => s.2.2 == []) = true ∧ 3 ≤ Gen.observerSites.length ∧
     (Gen.lockOrderEdges.all fun e => !timerMutexes.contains e.1) = true ∧
     (Gen.entryPointsLocked.filter fun r => r.2.1 == "timer").all (fun r => r.2.2.2.2.2.2 == []) = true := by
   decide
